@@ -62,7 +62,7 @@ let exec (toks : string list) : string list =
           let nn i = n_of_string (L.nth p i) in
           match L.hd p with
           | "len" -> "len " ^ string_of_n (v.vlen ())
-          | "cr" -> res_list v.show (collect_range_at v.esz v.rd (nn 1) (nn 2))
+          | "cr" -> res_list v.show (collect_range_at v.esz (v.vlen ()) v.rd (nn 1) (nn 2))
           | "fr" -> res_list v.show (v.fr (nn 1) (nn 2))
           | "fe" -> res_list v.show (v.fe (nn 1) (nn 2))
           | "ri" -> res_list v.show (v.rd (nn 1) (nn 2))
@@ -128,7 +128,7 @@ let exec (toks : string list) : string list =
        | "dsub" | "dchg" ->
            let op = if kind = "dsub" then LazyDelta.DSub else LazyDelta.DChg in
            let fr a b = run_all (LazyDelta.d_fold ovf ety op (src 0) !map a b) in
-           run { vlen = (fun () -> LazyDelta.d_len (src 0));
+           run { vlen = (fun () -> LazyDelta.d_len (src 0) !map);
                  esz = (if kind = "dsub" then ety_size ety else n2 8);
                  rd = (fun a b -> run_all (LazyDelta.d_read_into ovf ety op (src 0) !map a b));
                  fe = (fun a b -> run_all (LazyDelta.d_for_each ovf ety op (src 0) !map a b));
